@@ -209,7 +209,51 @@ def gen_outline():
     return "\n".join(out) + "\n"
 
 
+def gen_junit():
+    """the characters behave's JUnit reporter treats as invalid, ElementTree's attribute/text escaping, status tuples of _process_scenario"""
+    import sys, inspect, re
+    from xml.etree import ElementTree
+    from behave.reporter import junit
+    ranges, start, prev = [], None, None
+    rx = junit._invalid_re
+    for c in range(sys.maxunicode + 1):
+        if 0xD800 <= c <= 0xDFFF:
+            hit = True          # lone surrogates cannot be fed to the regex portably; they are in the code's table
+        else:
+            hit = bool(rx.match(chr(c)))
+        if hit:
+            if start is None:
+                start = c
+            prev = c
+        elif start is not None:
+            ranges.append((start, prev))
+            start = None
+    if start is not None:
+        ranges.append((start, prev))
+    attr = [(c, ElementTree._escape_attrib(chr(c))) for c in range(128) if ElementTree._escape_attrib(chr(c)) != chr(c)]
+    text = [(c, ElementTree._escape_cdata(chr(c))) for c in range(128) if ElementTree._escape_cdata(chr(c)) != chr(c)]
+    probe = junit._escape_invalid_xml_chars("\x01|\x1f|￾")
+    src = inspect.getsource(junit.JUnitReporter._process_scenario)
+    def tup(name):
+        m = re.search(name + r"\s*=\s*[\(\[]([^\)\]]*)[\)\]]", src)
+        if not m:
+            raise ValueError("gen_junit: %s not found in _process_scenario" % name)
+        return [x.strip().split(".")[-1] for x in m.group(1).split(",") if x.strip()]
+    out = ["(* GENERATED from %s/behave/reporter/junit.py (_invalid_re, status tuples of _process_scenario) and xml.etree.ElementTree by harness/gen_more.py *)" % REPO,
+           "From BV Require Import Base Status.", "",
+           "Definition junit_invalid_ranges : list (N * N) := %s." % clist(["(%d%%N, %d%%N)" % r for r in ranges], "N * N"),
+           "Definition et_attr_escapes : list (N * ustr) := %s." % clist(["(%d%%N, %s)" % (c, cstr_(t)) for c, t in attr], "N * ustr"),
+           "Definition et_text_escapes : list (N * ustr) := %s." % clist(["(%d%%N, %s)" % (c, cstr_(t)) for c, t in text], "N * ustr"),
+           "Definition invalid_probe : ustr := %s." % cstr_(probe),
+           "Definition junit_error_step_statuses : list status := %s." % clist(tup("error_statuses"), "status"),
+           "Definition junit_failed_step_statuses : list status := %s." % clist(tup("failed_statuses"), "status"),
+           "Definition junit_skipped_statuses : list status := %s." % clist(tup("skipped_statuses"), "status"),
+           "Definition junit_problematic_statuses : list status := %s." % clist(tup("problematic_statuses"), "status")]
+    return "\n".join(out) + "\n"
+
+
 GENERATORS = {
+    "JUnitTables.v": gen_junit,
     "OutlineTables.v": gen_outline,
     "ConfigTables.v": gen_config,
     "ActiveTagTables.v": gen_activetag,
